@@ -39,6 +39,7 @@ func runC11(c *core.Ctx) {
 	c.Rule("R5", "terminal error returns before resultTracker.done", 1)
 	c.Rule("R6", "at most one call per instance", 1)
 	c.Rule("R7", "ReplicationSet.Do: per-goroutine delay timers", 1)
+	c.Rule("R12", "ReplicationSet.Do: the collecting loop never blocks on a send: the force-start send is unreachable when the zone-aware tracker was chosen", 1)
 	c.Rule("R8", "DoUntilQuorum and DoMultiUntilQuorum… delegate to the analysed functions with arguments, configuration and results untouched", 4)
 	c.Rule("R10", "multi-set read: every worker reads its set, failures recorded once, successes appended in full, answer after Wait", 3)
 	c.Rule("R11", "the configuration check refuses exactly a negative hedging delay (no other configuration makes a read fail before any call)", 1)
@@ -663,6 +664,57 @@ func c11Legacy(c *core.Ctx) {
 		})
 	}
 	c.Check(len(bad) == 0 && n >= 1, "R7", "func=ReplicationSet.Do:timers", fn.Pos(), fmt.Sprintf("%d timer receives inside per-instance goroutines, each on a timer created by that goroutine; shared timers: %v", n, bad), n)
+	// R12: the collecting loop never blocks on a send. A bare send (not a select alternative) in the function's own
+	// goroutine goes to a channel whose capacity is the number of tolerated errors; only the default tracker ends the
+	// loop after that many failures, so the send must be unreachable whenever the zone-aware tracker was chosen
+	// (there the capacity is 0 and nobody is held back: the send would block for ever, past the caller's context).
+	g := fn.Graph()
+	var sends []ast.Node
+	inSelect := map[ast.Node]bool{}
+	fn.InspectShallow(func(x ast.Node) bool {
+		switch y := x.(type) {
+		case *ast.CommClause:
+			if y.Comm != nil {
+				inSelect[y.Comm] = true
+			}
+		case *ast.SendStmt:
+			if !inSelect[y] {
+				sends = append(sends, y)
+			}
+		}
+		return true
+	})
+	var zoneTracker []ast.Node
+	for _, call := range fn.CallsTo(false, "ring", "newZoneAwareResultTracker") {
+		zoneTracker = append(zoneTracker, call.Expr)
+	}
+	if len(zoneTracker) == 0 {
+		c.Miss("R12", "func=ReplicationSet.Do:zone-aware-tracker", "the call that selects the zone-aware tracker was not found")
+		return
+	}
+	nb := 0
+	for i, sd := range sends {
+		targets := []an.Loc{g.Locate(zoneTracker[0]), g.Locate(sd)}
+		atoms := []an.Atom{{Name: "muz", Values: []string{"lt", "eq", "gt"}}, {Name: "delay", Values: []string{"lt", "eq", "gt"}}}
+		b := &an.Binder{Fn: fn, Cmp: map[string]string{"recv.MaxUnavailableZones|0": "muz", "p1|0": "delay"}}
+		var both, sendRows []string
+		for _, row := range an.Rows(atoms) {
+			b.Row = row
+			b.Unknown = map[string]bool{}
+			ex := g.Exec(g.EntryLoc(), targets, b.Leaf, an.ExecOpts{Unroll: 1})
+			if ex.May[1] {
+				sendRows = append(sendRows, an.RowString(row))
+				if ex.May[0] {
+					both = append(both, an.RowString(row))
+				}
+			}
+		}
+		nb++
+		c.Check(len(both) == 0 && len(sendRows) > 0, "R12", fmt.Sprintf("func=ReplicationSet.Do:bare-send#%d", i+1), sd.Pos(), fmt.Sprintf("bare send %s in the collecting loop: reachable for %v; reachable together with the zone-aware tracker (channel capacity = tolerated errors = 0, nobody held back) for %v", types.ExprString(sd.(*ast.SendStmt).Chan), sendRows, both), 9)
+	}
+	if nb == 0 {
+		c.HoldTrivial("R12", "func=ReplicationSet.Do:bare-send", fn.Pos(), "the collecting loop has no bare send: it cannot block on one")
+	}
 }
 
 func c11Entry(c *core.Ctx) {
